@@ -410,6 +410,122 @@ def enc_doc(evs):
     return ";".join(parts) or "-"
 
 
+VOID_SET = set(VOID_TAGS)
+
+
+def doc_tree(evs, esi):
+    """(index in evs, ancestors as list of indices innermost first, child index, type index) per start tag"""
+    out = []
+    open_ = []          # indices into evs
+    kids = {None: []}
+    for idx, e in enumerate(evs):
+        if e[0] == "s":
+            parent = open_[-1] if open_ else None
+            sibs = kids.setdefault(parent, [])
+            out.append((idx, list(reversed(open_)), len(sibs) + 1,
+                        sum(1 for j in sibs if evs[j][1].lower() == e[1].lower()) + 1))
+            sibs.append(idx)
+            kids[idx] = []
+            if e[2] == "h":
+                closes = e[1].lower() in VOID_SET or (esi and e[1] in ("esi:include", "esi:comment"))
+            else:
+                closes = e[3]
+            if not closes:
+                open_.append(idx)
+        elif e[0] == "e":
+            for k in range(len(open_) - 1, -1, -1):
+                if evs[open_[k]][1].lower() == e[1].lower():
+                    del open_[k:]
+                    break
+    return out
+
+
+def compound_for(rng, evs, idx, cidx, tidx):
+    """a compound that the start tag evs[idx] satisfies (mostly)"""
+    e = evs[idx]
+    out = []
+    name = e[1]
+    if ":" not in name and rng.random() < 0.6:
+        out.append(("t", rand_case(rng, name)))
+    elif rng.random() < 0.15:
+        out.append(("u",))
+    for (n, v) in e[4]:
+        if rng.random() < 0.5:
+            continue
+        v = v or ""
+        ln = n.lower()
+        r = rng.random()
+        if ln == "id" and v and " " not in v and "\t" not in v and r < 0.5 and v[0].isalpha():
+            out.append(("i", v))
+        elif ln == "class" and r < 0.6:
+            toks = [t for t in v.replace("\t", " ").split(" ") if t and t[0].isalpha()]
+            if toks:
+                out.append(("k", rng.choice(toks)))
+        elif r < 0.3:
+            out.append(("e", rand_case(rng, n)))
+        elif v:
+            op = rng.choice(["eq", "inc", "dash", "pfx", "sub", "sfx"])
+            if op == "eq":
+                val = v
+            elif op == "inc":
+                val = rng.choice(v.replace("\t", " ").split(" ") or [v])
+            elif op == "dash":
+                val = v.split("-")[0]
+            elif op == "pfx":
+                val = v[:rng.randrange(1, len(v) + 1)]
+            elif op == "sfx":
+                val = v[-rng.randrange(1, len(v) + 1):]
+            else:
+                a = rng.randrange(0, len(v))
+                val = v[a:rng.randrange(a + 1, len(v) + 1)]
+            if "\t" in val:
+                continue
+            flag = rng.choice(["", "", "i", "s"])
+            if flag == "i" or rng.random() < 0.15:
+                val = rand_case(rng, val)
+            out.append(("a", rand_case(rng, n), op, val, parsed_case(n, flag)))
+    r = rng.random()
+    if r < 0.12:
+        out.append(("n", rng.choice([0, 1, 2, -1]), cidx if rng.random() < 0.7 else rng.randrange(0, 4)))
+    elif r < 0.24:
+        out.append(("o", rng.choice([0, 1, 2, -1]), tidx if rng.random() < 0.7 else rng.randrange(0, 4)))
+    elif r < 0.3 and cidx == 1:
+        out.append(("f",))
+    elif r < 0.36 and tidx == 1:
+        out.append(("g",))
+    if rng.random() < 0.2:
+        out.append(gen_not(rng, 0))
+    if not out:
+        out.append(("u",))
+    head = [s for s in out if s[0] in ("t", "u")][:1]
+    rest = [s for s in out if s[0] not in ("t", "u")]
+    return head + rest
+
+
+def gen_sellist_for_doc(rng, evs, tree):
+    """selector list aimed at a random start tag of the document"""
+    (idx, anc, cidx, tidx) = rng.choice(tree)
+    comps = [compound_for(rng, evs, idx, cidx, tidx)]
+    cur_anc = list(anc)
+    tinfo = {t[0]: t for t in tree}
+    while cur_anc and rng.random() < 0.55:
+        if rng.random() < 0.5:
+            k = 0
+            comb = "c"
+        else:
+            k = rng.randrange(0, len(cur_anc))
+            comb = "d"
+        a = cur_anc[k]
+        cur_anc = cur_anc[k + 1:]
+        if rng.random() < 0.12:
+            comb = "c" if comb == "d" else "d"
+        comps = [compound_for(rng, evs, a, tinfo[a][2], tinfo[a][3]), comb] + comps
+    sl = [comps]
+    if rng.random() < 0.15:
+        sl.append(gen_complex(rng))
+    return sl
+
+
 def directed(rng):
     """hand-picked shapes: F3, prefix sharing, hereditary-jump de-duplication, bail-outs in all three places"""
     D = []
@@ -460,12 +576,18 @@ def gen(rng, n, tier, pid):
     while len(cases) < n:
         esi = rng.random() < 0.15
         nsel = rng.choice([1, 1, 2, 2, 3, 4, 6])
-        sels = [gen_sellist(rng) for _ in range(nsel)]
+        evs = gen_doc(rng, esi, tier)
+        tree = doc_tree(evs, esi)
+        sels = []
+        for _ in range(nsel):
+            if tree and rng.random() < 0.65:
+                sels.append(gen_sellist_for_doc(rng, evs, tree))
+            else:
+                sels.append(gen_sellist(rng))
         if rng.random() < 0.3 and nsel >= 2:
             # force prefix sharing: second selector extends the first one's first complex selector
             base = sels[0][0]
             sels[1] = [base + [rng.choice(["c", "d"]), gen_compound(rng)]]
-        evs = gen_doc(rng, esi, tier)
         c = make_case(rng, sels, evs, esi)
         _META[c] = (sels, evs)
         cases.append(c)
@@ -494,7 +616,9 @@ def project(pid, case, line):
 
 def stats(cases, obs):
     d = {"cases": len(cases), "with_hits": 0, "f3_shape": 0, "attr_selectors": 0, "combinators": 0,
-         "foreign": 0, "void_or_esi": 0, "cuts": 0, "model_ne_spec": 0, "nth": 0, "esi": 0, "stray_or_mismatched_end": 0}
+         "foreign": 0, "void": 0, "self_closing": 0, "cuts": 0, "model_ne_spec": 0, "nth": 0, "esi": 0,
+         "end_tags": 0, "nsel_hist": {}, "events_hist": {}}
+    void_hex = {hx(v) for v in VOID_TAGS} | {hx(v.upper()) for v in VOID_TAGS}
     for c, o in zip(cases, obs):
         f = c.split(" ")
         if _hits(o) != "-":
@@ -504,16 +628,26 @@ def stats(cases, obs):
         if f[1] != "-":
             d["cuts"] += 1
         toks = f[2].split(",")
-        if "x" in toks:
-            d["f3_shape"] += 1 if c in _META and any(has_f3_shape(sl) for sl in _META[c][0]) else 0
+        d["nsel_hist"][toks[0]] = d["nsel_hist"].get(toks[0], 0) + 1
+        if c in _META and any(has_f3_shape(sl) for sl in _META[c][0]):
+            d["f3_shape"] += 1
         if any(t in ("i", "k", "e", "a") for t in toks):
             d["attr_selectors"] += 1
         if "c" in toks or "d" in toks:
             d["combinators"] += 1
         if "n" in toks or "o" in toks or "f" in toks or "g" in toks:
             d["nth"] += 1
+        evs = [] if f[4] == "-" else f[4].split(";")
+        b = str(min(len(evs) // 4 * 4, 28))
+        d["events_hist"][b] = d["events_hist"].get(b, 0) + 1
         if ":s:" in f[4] or ":m:" in f[4]:
             d["foreign"] += 1
+        if any(e.startswith("s:") and e.split(":")[1] in void_hex for e in evs):
+            d["void"] += 1
+        if any(e.startswith("s:") and e.split(":")[3] == "1" for e in evs):
+            d["self_closing"] += 1
+        if any(e.startswith("e:") for e in evs):
+            d["end_tags"] += 1
         parts = o.split(" ")
         ref = [p for p in parts if p.startswith("ref=")]
         if ref and ref[0][4:] != _hits(o):
